@@ -545,6 +545,84 @@ func init() {
 		return nil
 	})
 
+	// bufio.Reader over a model file: ReadLine hands out at most the buffer size (4096 unless
+	// NewReaderSize says otherwise) per call and sets isPrefix when the line continues; ReadString
+	// reads through the delimiter. The end of the file is reported with an error value (the value
+	// is not io.EOF itself: programs comparing with io.EOF are outside the model).
+	newReader := func(size int) func(m *Machine, fn *ssa.Function, a []Value) Value {
+		return func(m *Machine, fn *ssa.Function, a []Value) Value {
+			t := fn.Signature.Results().At(0).Type().(*types.Pointer).Elem()
+			o := m.newObject(t, m.zero(t), "reader")
+			fp, ok := a[0].(Iface).V.(Ptr)
+			if !ok {
+				m.unsupported("bufio.NewReader on a reader the model does not know")
+			}
+			n := size
+			if n == 0 {
+				c, isT := a[1].(*Term)
+				if !isT || !c.IsConst() {
+					m.unsupported("bufio.NewReaderSize with a symbolic size")
+				}
+				n = int(c.Val)
+				if n < 16 {
+					n = 16
+				}
+			}
+			m.env().scanners[o] = &scanState{f: m.fileOf(fp), max: n}
+			return Ptr{Obj: o}
+		}
+	}
+	reg("bufio.NewReader", newReader(4096))
+	reg("bufio.NewReaderSize", newReader(0))
+	byteSlice := func(m *Machine, bs []*Term) Slice {
+		vals := make([]Value, len(bs))
+		for i, b := range bs {
+			vals[i] = b
+		}
+		return m.MakeSlice(types.Typ[types.Uint8], vals)
+	}
+	reg("(*bufio.Reader).ReadLine", func(m *Machine, fn *ssa.Function, a []Value) Value {
+		sc := m.env().scanners[a[0].(Ptr).Obj]
+		f := sc.f
+		if f.rpos >= len(f.rdata) {
+			return Tuple{Slice{}, m.S.False, m.mkError(ConcStr("EOF", m.S), nil)}
+		}
+		nl := m.S.Const(8, '\n')
+		end := f.rpos
+		for end < len(f.rdata) && end-f.rpos < sc.max && !m.Branch(m.S.Eq(f.rdata[end], nl)) {
+			end++
+		}
+		if end-f.rpos >= sc.max && end < len(f.rdata) {
+			// the buffer is full and the line goes on
+			line := f.rdata[f.rpos:end]
+			f.rpos = end
+			return Tuple{byteSlice(m, line), m.S.True, Iface{}}
+		}
+		line := f.rdata[f.rpos:end]
+		if len(line) > 0 && m.Branch(m.S.Eq(line[len(line)-1], m.S.Const(8, '\r'))) {
+			line = line[:len(line)-1]
+		}
+		f.rpos = end + 1
+		return Tuple{byteSlice(m, line), m.S.False, Iface{}}
+	})
+	reg("(*bufio.Reader).ReadString", func(m *Machine, fn *ssa.Function, a []Value) Value {
+		sc := m.env().scanners[a[0].(Ptr).Obj]
+		f := sc.f
+		delim := a[1].(*Term)
+		end := f.rpos
+		for end < len(f.rdata) && !m.Branch(m.S.Eq(f.rdata[end], delim)) {
+			end++
+		}
+		if end >= len(f.rdata) {
+			rest := Str{append([]*Term(nil), f.rdata[f.rpos:]...)}
+			f.rpos = len(f.rdata)
+			return Tuple{rest, m.mkError(ConcStr("EOF", m.S), nil)}
+		}
+		line := Str{append([]*Term(nil), f.rdata[f.rpos:end+1]...)}
+		f.rpos = end + 1
+		return Tuple{line, Iface{}}
+	})
+
 	// regexp
 	reg("regexp.MustCompile", func(m *Machine, fn *ssa.Function, a []Value) Value {
 		src := concStrArg(m, a[0], "regexp source")
